@@ -83,6 +83,11 @@ def gen_case(rng, i, spaces_p, allow_list=True):
                 inp[nm] = f(nospace=nm == "eq")
     if not any(k != "txt" for k in inp):
         inp["ro"] = f()
+    if rng.random() < 0.15:
+        # a (read-only) input that lives directly in the cache root of the container run: the cache root must
+        # still be mounted read-write
+        n[0] += 1
+        inp["ro"] = f"@crc/f{n[0]}.txt"
     inp["txt"] = rng.choice(["t", "zz", "a.b", "k=v"])
     return {"i": i, "task": task, "inputs": inp, "runtime": rng.choice(["docker", "singularity"]),
             "root": rng.choice(ROOTS), "xargs": rng.choice(XARGS), "tag": rng.choice(["latest", "1.2"]),
@@ -98,7 +103,7 @@ def _mk_inputs(base, inp):
         vals = v if isinstance(v, list) else [v]
         ps = []
         for rel in vals:
-            p = Path(base) / rel
+            p = (Path(base).parent / "crc" / rel[5:]) if rel.startswith("@crc/") else Path(base) / rel
             p.parent.mkdir(parents=True, exist_ok=True)
             p.write_text(rel)
             ps.append(str(p))
